@@ -24,6 +24,8 @@ enum Shape {
     Single,
     WithIngredient,
     Sidecar,
+    /// the active manifest redacts one assertion of its parent ingredient
+    WithRedaction,
 }
 
 fn cases() -> Vec<(Fmt, Binding, Shape)> {
@@ -44,6 +46,7 @@ fn cases() -> Vec<(Fmt, Binding, Shape)> {
         (Fmt::Jxl, Binding::Default, Shape::Single),
         (Fmt::Webp, Binding::Default, Shape::Single),
         (Fmt::Mp4, Binding::Default, Shape::WithIngredient),
+        (Fmt::Jpeg, Binding::Default, Shape::WithRedaction),
     ]
 }
 
@@ -97,6 +100,30 @@ fn build(rc: &mut RunCtx, fmt: Fmt, binding: Binding, shape: Shape, variant: u64
     }
     if shape == Shape::Sidecar {
         b.set_no_embed(true);
+    }
+    let mut asset = asset;
+    if shape == Shape::WithRedaction {
+        // parent signed first; the edit redacts the parent's org.sim.note assertion
+        let parent = sdk::sign_plain(&ctx, &sdk::simple_definition("c02-parent"), "ed25519", fmt.mime(), &asset)?;
+        let pl = Reader::from_shared_context(&ctx)
+            .with_stream(fmt.mime(), std::io::Cursor::new(parent.clone()))
+            .map_err(|e| format!("parent read: {}", err_kind(&e)))?
+            .active_label()
+            .map(|s| s.to_string())
+            .ok_or("parent label")?;
+        let uri = format!("self#jumbf=/c2pa/{pl}/c2pa.assertions/org.sim.note");
+        let def = json!({
+            "title": "c02-redacting",
+            "claim_generator_info": [{ "name": "c2pasim", "version": "0.1" }],
+            "redactions": [uri],
+            "assertions": [
+                { "label": "c2pa.actions", "data": { "actions": [
+                    { "action": "c2pa.redacted", "reason": "c2pa.PII.present", "parameters": { "redacted": uri } } ] } }
+            ]
+        });
+        b = Builder::from_shared_context(&ctx).with_definition(def).map_err(|e| err_kind(&e))?;
+        b.set_intent(c2pa::BuilderIntent::Edit);
+        asset = parent;
     }
     let mut src = std::io::Cursor::new(asset.clone());
     let mut dst = std::io::Cursor::new(Vec::new());
@@ -254,6 +281,69 @@ impl Property for C02 {
                 }
             };
             *tally.entry(label).or_insert(0) += 1;
+        }
+        // JUMBF-structure edits with all enclosing box sizes fixed up (sidecar store only, where
+        // no container framing has to follow): assertion box duplicated, duplicated under a new
+        // (undeclared) label, dropped; claim and signature boxes exchanged
+        if shape == Shape::Sidecar && shard == 0 {
+            let mut edits: Vec<(String, Option<Vec<u8>>)> = Vec::new();
+            for (s, e) in &ab {
+                let bx = case.store[*s..*e].to_vec();
+                edits.push((format!("assertion box [{s}..{e}) duplicated"), jumbf::splice(&case.store, *e, 0, &bx, (*s, *e))));
+                let mut renamed = bx.clone();
+                // label: jumb hdr(8) jumd hdr(8) uuid(16) toggles(1) label.. ; change its first character
+                if renamed.len() > 34 {
+                    renamed[33] ^= 0x01;
+                }
+                edits.push((format!("assertion box [{s}..{e}) duplicated under another label"), jumbf::splice(&case.store, *e, 0, &renamed, (*s, *e))));
+                edits.push((format!("assertion box [{s}..{e}) dropped"), jumbf::splice(&case.store, *s, e - s, &[], (*s, *e))));
+            }
+            if let Some(((cs, ce), (ss, se))) = jumbf::claim_and_signature(&case.store) {
+                if ce == ss {
+                    let mut sw = case.store[ss..se].to_vec();
+                    sw.extend_from_slice(&case.store[cs..ce]);
+                    edits.push(("claim and signature boxes exchanged".into(), jumbf::splice(&case.store, cs, se - cs, &sw, (cs, ce))));
+                }
+                let sig = case.store[ss..se].to_vec();
+                edits.push(("signature box duplicated".into(), jumbf::splice(&case.store, se, 0, &sig, (ss, se))));
+            }
+            for (n, (what, m)) in edits.iter().enumerate() {
+                let sub = 10_000_000 + n as u64;
+                if !rc.want_sub(sub) {
+                    continue;
+                }
+                rc.mark(sub);
+                let Some(m) = m else {
+                    out.probe("edit_not_built");
+                    continue;
+                };
+                out.evals += 1;
+                out.fault("structure_edit");
+                out.keys.push(hash_str(&format!("{tag}|edit{n}")));
+                let label = match sdk::guarded(|| read_case(&case, m)) {
+                    Err(p) => {
+                        let loc = p.split('|').next().unwrap_or("?").to_string();
+                        out.violate(sub, &format!("panic:{loc}"), "G1 no panic on untrusted bytes", json!({"scenario": tag, "fault": what, "panic": p}));
+                        continue;
+                    }
+                    Ok(Err(_)) => "err",
+                    Ok(Ok(rep)) if !rep.is_ok_state() => "invalid",
+                    Ok(Ok(rep)) => {
+                        if rep.state == case.clean.state && rep.json == case.clean.json && rep.codes == case.clean.codes {
+                            "identical"
+                        } else {
+                            let kind = what.split(") ").last().unwrap_or(what).replace(' ', "-");
+                            out.violate(sub, &format!("structure-edit-alters-report:{kind}"), "C02 fails, or Invalid, or everything identical",
+                                json!({"scenario": tag, "fault": what, "state": rep.state, "clean_state": case.clean.state}));
+                            "VIOLATION"
+                        }
+                    }
+                };
+                if std::env::var("VERIF_DEBUG").is_ok() {
+                    eprintln!("edit {n}: {what} -> {label}");
+                }
+                out.probe(&format!("edit_outcome:{label}"));
+            }
         }
         for (k, v) in &tally {
             out.probe_n(&format!("outcome:{k}"), *v);
